@@ -257,6 +257,15 @@ def cmpLimbsD (zp : List Nat) (d0 d1 : Nat) (ret : Int) : Int :=
     if zl ≠ d0 then (if zl ≥ d0 then ret else -ret)               -- :107
     else if (zp.take (zsize - 2)).any (· != 0) then ret else 0     -- :108 RETURN_NONZERO
 
+/-- Steps 3-5 of mpz_cmp_d (cmp_d.c:88-108), identical in mpz_cmpabs_d (cmpabs_d.c:73-93) with ret = 1:
+    `zsize` = |SIZ(z)| ≥ 1, `d` = |d| non-zero finite, `ret` = sign of z. -/
+def cmpTailD (zp : List Nat) (zsize : Int) (d : Nat) (ret : Int) : Int :=
+  if d < oneBits then ret                                           -- :89 d < 1.0
+  else
+    let (d0, d1, dexp) := extract_double d                          -- :92
+    if zsize ≠ dexp then (if zsize ≥ dexp then ret else -ret)       -- :96-97
+    else cmpLimbsD zp d0 d1 ret                                     -- :100-108
+
 /-- mpz_cmp_d (mpz/cmp_d.c:50-136).  `none` = __gmp_invalid_operation (NaN). -/
 def mpz_cmp_d (z : Z) (d : Nat) : Option Int :=
   if isNaN d then none                                              -- :60
@@ -269,13 +278,8 @@ def mpz_cmp_d (z : Z) (d : Nat) : Option Int :=
     else if zsize < 0 ∧ !isNeg d then some (-1)                     -- :81-82
     else
       let ret : Int := if zsize ≥ 0 then 1 else -1                  -- :77, :83
-      let d := absBits d                                            -- :84 d = -d (only when negative)
-      let zsize : Int := zsize.natAbs                               -- :85
-      if d < oneBits then some ret                                  -- :89 d < 1.0
-      else
-        let (d0, d1, dexp) := extract_double d                      -- :92
-        if zsize ≠ dexp then some (if zsize ≥ dexp then ret else -ret)   -- :96-97
-        else some (cmpLimbsD z.d d0 d1 ret)                         -- :100-108
+      -- :84 d = -d (only when negative), :85 zsize = -zsize
+      some (cmpTailD z.d zsize.natAbs (absBits d) ret)              -- :88-108
 
 /-- mpz_cmpabs_d (mpz/cmpabs_d.c:50-121). -/
 def mpz_cmpabs_d (z : Z) (d : Nat) : Option Int :=
@@ -285,14 +289,7 @@ def mpz_cmpabs_d (z : Z) (d : Nat) : Option Int :=
     let zsize := z.size
     if isZero d then some (if zsize ≠ 0 then 1 else 0)              -- :64-65
     else if zsize = 0 then some (-1)                                -- :66-67 (d != 0 here)
-    else
-      let zsize : Int := zsize.natAbs                               -- :70
-      let d := absBits d                                            -- :71
-      if d < oneBits then some 1                                    -- :74
-      else
-        let (d0, d1, dexp) := extract_double d                      -- :77
-        if zsize ≠ dexp then some (if zsize ≥ dexp then 1 else -1)  -- :81-82
-        else some (cmpLimbsD z.d d0 d1 1)                           -- :85-93
+    else some (cmpTailD z.d zsize.natAbs (absBits d) 1)             -- :70-93
 
 /-- mpz_get_d (mpz/get_d.c:26-35) -/
 def mpz_get_d (z : Z) : Nat :=
